@@ -104,7 +104,7 @@ func (libSim) Gen(prop, tier string, r *rand.Rand) interface{} {
 		case x < wUpd:
 			op := LibOp{Op: "upd", Implicit: chance(r, 0.2)}
 			op.ID = genTargetID(r, prop, n)
-			op.Pts = []LibPt{{Age: genAge(r, prop, l, op.ID, true), V: FV(genValue(r, vmode))}}
+			op.Pts = []LibPt{{Age: genAge(r, prop, l, op.ID, true), V: FV(genValueFor(r, prop, vmode))}}
 			c.Ops = append(c.Ops, op)
 		case x < wUpd+wMany:
 			op := LibOp{Op: "many", Implicit: chance(r, 0.2)}
@@ -126,7 +126,7 @@ func (libSim) Gen(prop, tier string, r *rand.Rand) interface{} {
 				if chance(r, 0.1) && j > 0 {
 					a = op.Pts[r.IntN(j)].Age // duplicate timestamp
 				}
-				op.Pts = append(op.Pts, LibPt{Age: a, V: FV(genValue(r, vmode))})
+				op.Pts = append(op.Pts, LibPt{Age: a, V: FV(genValueFor(r, prop, vmode))})
 			}
 			c.Ops = append(c.Ops, op)
 		case x < wUpd+wMany+wAdv:
@@ -158,6 +158,15 @@ func (libSim) Gen(prop, tier string, r *rand.Rand) interface{} {
 		}
 	}
 	return c
+}
+
+// genValueFor: C01 also writes NaN and infinities (a written NaN replaces the
+// older value of its slot like any other write).
+func genValueFor(r *rand.Rand, prop string, vmode int) float64 {
+	if prop == "C01" && chance(r, 0.04) {
+		return pick(r, math.NaN(), math.NaN(), math.Inf(1), math.Inf(-1))
+	}
+	return genValue(r, vmode)
 }
 
 func genTargetID(r *rand.Rand, prop string, n int) int {
